@@ -119,9 +119,6 @@ theorem dollar_open_head (E : Env) (lb first word : CpSet) (hf36 : first.mem 36 
 
 /-! ## the back-reference -/
 
-theorem getElem?_of_drop (E : Env) (p k : Nat) (l : List Cp) (h : E.s.toList.drop p = l) : E.s[p + k]? = l[k]? := by
-  rw [← h, List.getElem?_drop, Array.getElem?_toList]
-
 /-- `\1` at `j`, group 1 being `[a, a + op.length)` which reads `op`: a derivation exists only if the text at `j` equals `op` up to case -/
 theorem bref_fail (E : Env) (a j : Nat) (op tl rest' : List Cp) (caps : List (Nat × Nat × Nat))
     (hcap : capOf caps 1 = some (a, a + op.length))
